@@ -8,7 +8,7 @@
    in it: `Reach lock_graph ship_roots`, `In s effect_sites`.  That no third-party crate misbehaves at run time is
    observed (strace), never proved. *)
 Require Import Base EffectsBase Effects Tables_effects EffectsProofs EffectsChecked EffectsSave EffectsSaveProofs.
-Require Import EffectsLinked EffectsLinkedProofs EffectsLinkedChecked EffectsConfig EffectsConfigProofs.
+Require Import EffectsLinked EffectsLinkedProofs EffectsLinkedChecked EffectsConfig EffectsConfigProofs C10Cli C10CliProofs Tables_c10paths.
 From Coq Require Import String Ascii.
 Open Scope string_scope.
 Open Scope list_scope.
@@ -395,23 +395,24 @@ Qed.
    $HOME, the working directory, config_dir() and data_local_dir() are inputs (e : penv). *)
 
 (* for EVERY configuration the parser can produce, from any settings in any environment: the user dictionary is
-   written as <user>.tmp and renamed onto <user> provided the setting names a file (last component not `..`); a file
-   dictionary as <dir>/<name>.tmp renamed onto <dir>/<name> provided <dir> is not the root; the statistics file is
-   opened in place; all accepted by the monitor under THAT configuration's locations — and for an absent or EMPTY
-   dictionary setting both provisos hold by themselves.  No hypothesis that paths are free of `..` any more. *)
+   written as <user>.tmp and renamed onto <user> provided the setting names a file (last component not `..`: the ONE
+   proviso left, and it cannot go — C10_config_user_write_refuted); a file dictionary as <dir>/<name>.tmp renamed onto
+   <dir>/<name>, for EVERY directory, the root included (phase 4: the proviso "<dir> is not the root" is gone — the
+   monitor is told a directory as the prefix of its children, "" for the root); the statistics file is opened in
+   place; all accepted by the monitor under THAT configuration's locations — and for an absent or EMPTY userDictPath
+   the proviso holds by itself.  No hypothesis that paths are free of `..`. *)
 Theorem C10_config_writes_inside : forall e u f s pc, parse_paths e u f s = Some pc ->
   let c := mcfg_of pc in
   (names_file (p_user pc) = true ->
      cfg_user_plan pc = (m_user c ++ tmp_suffix, m_user c ++ tmp_suffix, m_user c) /\
      path_allowed c (m_user c ++ tmp_suffix) = true /\ path_allowed c (m_user c) = true /\
      rename_allowed c (m_user c ++ tmp_suffix) (m_user c) = true) /\
-  (resolve (p_filedir pc) <> [] -> forall fp o s' d, cfg_file_plan pc fp = Some (o, s', d) ->
+  (forall fp o s' d, cfg_file_plan pc fp = Some (o, s', d) ->
      d = m_filedir c ++ slash :: file_dict_name (match fp with Some p => p | None => [] end) /\
      o = d ++ tmp_suffix /\ s' = o /\
      path_allowed c o = true /\ path_allowed c d = true /\ rename_allowed c s' d = true) /\
   path_allowed c (cfg_stats_write pc) = true /\
-  (unset u -> names_file (p_user pc) = true) /\
-  (unset f -> resolve (p_filedir pc) <> []).
+  (unset u -> names_file (p_user pc) = true).
 Proof. exact config_writes_inside. Qed.
 Check C10_config_writes_inside : forall e u f s pc, parse_paths e u f s = Some pc ->
   let c := mcfg_of pc in
@@ -419,13 +420,12 @@ Check C10_config_writes_inside : forall e u f s pc, parse_paths e u f s = Some p
      cfg_user_plan pc = (m_user c ++ tmp_suffix, m_user c ++ tmp_suffix, m_user c) /\
      path_allowed c (m_user c ++ tmp_suffix) = true /\ path_allowed c (m_user c) = true /\
      rename_allowed c (m_user c ++ tmp_suffix) (m_user c) = true) /\
-  (resolve (p_filedir pc) <> [] -> forall fp o s' d, cfg_file_plan pc fp = Some (o, s', d) ->
+  (forall fp o s' d, cfg_file_plan pc fp = Some (o, s', d) ->
      d = m_filedir c ++ slash :: file_dict_name (match fp with Some p => p | None => [] end) /\
      o = d ++ tmp_suffix /\ s' = o /\
      path_allowed c o = true /\ path_allowed c d = true /\ rename_allowed c s' d = true) /\
   path_allowed c (cfg_stats_write pc) = true /\
-  (unset u -> names_file (p_user pc) = true) /\
-  (unset f -> resolve (p_filedir pc) <> []).
+  (unset u -> names_file (p_user pc) = true).
 Print Assumptions C10_config_writes_inside.
 
 (* an absent or EMPTY userDictPath / fileDictPath is the default location (the guard seed c10-4 removes); an empty
@@ -479,7 +479,7 @@ Example C10_config_examples :
     Some (b "/work/proj/~user/d.txt", b "/work/proj/~/fd", b "/abs/st.txt") /\
   parse_render e SNotString SAbsent SAbsent = None /\ parse_render e SAbsent SAbsent SNotString = None /\
   (exists pc, parse_paths e (SString (b "../up/./d.txt")) (SString []) SAbsent = Some pc /\
-     names_file (p_user pc) = true /\ resolve (p_filedir pc) <> [] /\
+     names_file (p_user pc) = true /\
      cfg_user_plan pc = (b "/work/up/d.txt.tmp", b "/work/up/d.txt.tmp", b "/work/up/d.txt") /\
      cfg_file_plan pc (Some (b "/work/proj/a.md")) =
        Some (b "/home/u/.local/share/harper-ls/file_dictionaries/work%proj%a.md%.tmp",
@@ -496,3 +496,106 @@ Example C10_config_dir_setting_example :
     m_user (mcfg_of pc) = b "/a" /\ cfg_user_plan pc = (b "/a/.tmp", b "/a/.tmp", b "/a") /\
     path_allowed (mcfg_of pc) (b "/a/.tmp") = false.
 Proof. exact config_dir_setting_example. Qed.
+
+(* ---------------------------------------------------------------------------------------------------------------
+   Phase 4.  (a) The remaining proviso of C10_config_writes_inside — "userDictPath names a file" — is NOT enforced by
+   config.rs (only "" is guarded).  What the code does for every setting that names no file, proved; the property at
+   full strength refuted by a witness (finding FC10b, replayed on the real binary: mode stdio-userdir); and the
+   full-strength statement for the model with the proposed fix. *)
+Theorem C10_config_user_plan_dir : forall pc, names_file (p_user pc) = false ->
+  let dirp := render' (resolve (p_user pc)) in
+  cfg_user_plan pc = (dirp ++ slash :: tmp_suffix, dirp ++ slash :: tmp_suffix, m_user (mcfg_of pc)).
+Proof. exact config_user_plan_dir. Qed.
+Check C10_config_user_plan_dir : forall pc, names_file (p_user pc) = false ->
+  let dirp := render' (resolve (p_user pc)) in
+  cfg_user_plan pc = (dirp ++ slash :: tmp_suffix, dirp ++ slash :: tmp_suffix, m_user (mcfg_of pc)).
+Print Assumptions C10_config_user_plan_dir.
+
+Theorem C10_config_user_write_refuted :
+  exists e u pc o sr d, parse_paths e u SAbsent SAbsent = Some pc /\ cfg_user_plan pc = (o, sr, d) /\
+    path_allowed (mcfg_of pc) o = false /\ rename_allowed (mcfg_of pc) sr d = false.
+Proof. exact config_user_write_refuted. Qed.
+Check C10_config_user_write_refuted :
+  exists e u pc o sr d, parse_paths e u SAbsent SAbsent = Some pc /\ cfg_user_plan pc = (o, sr, d) /\
+    path_allowed (mcfg_of pc) o = false /\ rename_allowed (mcfg_of pc) sr d = false.
+Print Assumptions C10_config_user_write_refuted.
+
+Theorem C10_config_user_fixed_inside : forall pc o s d, cfg_user_plan_fixed pc = Some (o, s, d) ->
+  let c := mcfg_of pc in
+  o = m_user c ++ tmp_suffix /\ s = o /\ d = m_user c /\
+  path_allowed c o = true /\ path_allowed c d = true /\ rename_allowed c s d = true.
+Proof. exact config_user_fixed_inside. Qed.
+Check C10_config_user_fixed_inside : forall pc o s d, cfg_user_plan_fixed pc = Some (o, s, d) ->
+  let c := mcfg_of pc in
+  o = m_user c ++ tmp_suffix /\ s = o /\ d = m_user c /\
+  path_allowed c o = true /\ path_allowed c d = true /\ rename_allowed c s d = true.
+Print Assumptions C10_config_user_fixed_inside.
+
+(* non-vacuity: fileDictPath "/" (the case the old proviso excluded) and "~/.." ; userDictPath "~/x/.." under the fix *)
+Example C10_config_root_examples :
+  let b := fun s : string => bytes_of_string s in
+  let e := mkenv (b "/home") (b "/work/proj") (b "/home/.config") (b "/home/.local/share") in
+  (exists pc, parse_paths e SAbsent (SString (b "/")) SAbsent = Some pc /\ m_filedir (mcfg_of pc) = [] /\
+     cfg_file_plan pc (Some (b "/w/a.md")) = Some (b "/w%a.md%.tmp", b "/w%a.md%.tmp", b "/w%a.md%") /\
+     path_allowed (mcfg_of pc) (b "/w%a.md%.tmp") = true /\ path_allowed (mcfg_of pc) (b "/etc/x") = false) /\
+  (exists pc, parse_paths e SAbsent (SString (b "~/..")) SAbsent = Some pc /\
+     cfg_file_plan pc (Some (b "/w/a.md")) = Some (b "/w%a.md%.tmp", b "/w%a.md%.tmp", b "/w%a.md%")) /\
+  (exists pc, parse_paths e (SString (b "~/x/..")) SAbsent SAbsent = Some pc /\ names_file (p_user pc) = false /\
+     cfg_user_plan pc = (b "/home/.tmp", b "/home/.tmp", b "/home") /\ cfg_user_plan_fixed pc = None) /\
+  (exists pc, parse_paths e (SString (b "~/x/../d.txt")) SAbsent SAbsent = Some pc /\
+     cfg_user_plan_fixed pc = Some (b "/home/d.txt.tmp", b "/home/d.txt.tmp", b "/home/d.txt")).
+Proof.
+  cbv zeta. repeat split; eexists; (split; [reflexivity |]); vm_compute; repeat split; reflexivity.
+Qed.
+
+(* (b) harper-cli (Model/C10Cli.v): it writes nothing (site table + strace of the real binary); the two dictionary
+   files `lint` READS: the -u path, and the direct child of the -f directory named by harper-cli's own file_dict_name
+   of the document path as typed — one component, whatever the path (or the directory itself for a path without
+   component).  Compared with the read-only opens of the real harper-cli (stream `K`). *)
+Theorem C10_cli_file_dict_name_flat : forall file x, In x (cli_file_dict_name file) -> x <> slash.
+Proof. exact cli_file_dict_name_flat. Qed.
+Check C10_cli_file_dict_name_flat : forall file x, In x (cli_file_dict_name file) -> x <> slash.
+Print Assumptions C10_cli_file_dict_name_flat.
+
+Theorem C10_cli_lint_reads_inside : forall user filedir file u d, cli_lint_reads user filedir file = (u, d) ->
+  let dirp := render' (resolve (comps filedir)) in
+  u = render (resolve (comps user)) /\
+  ((cli_file_dict_name file = [] /\ d = render (resolve (comps filedir))) \/
+   (cli_file_dict_name file <> [] /\ d = dirp ++ slash :: cli_file_dict_name file /\ dir_of d = dirp)).
+Proof. exact cli_lint_reads_inside. Qed.
+Check C10_cli_lint_reads_inside : forall user filedir file u d, cli_lint_reads user filedir file = (u, d) ->
+  let dirp := render' (resolve (comps filedir)) in
+  u = render (resolve (comps user)) /\
+  ((cli_file_dict_name file = [] /\ d = render (resolve (comps filedir))) \/
+   (cli_file_dict_name file <> [] /\ d = dirp ++ slash :: cli_file_dict_name file /\ dir_of d = dirp)).
+Print Assumptions C10_cli_lint_reads_inside.
+
+Example C10_cli_examples :
+  let b := fun s : string => bytes_of_string s in
+  cli_lint_reads (b "/h/.config/harper-ls/dictionary.txt") (b "/h/fd/") (b "/w/docs/a.md") =
+    (b "/h/.config/harper-ls/dictionary.txt", b "/h/fd/w%docs%a.md%") /\
+  cli_lint_reads (b "/h/u.txt") (b "/h/fd") (b "docs/../a.md") = (b "/h/u.txt", b "/h/fd/docs%..%a.md%") /\
+  cli_lint_reads (b "/h/x/../u.txt") (b "/h/fd") (b "./a.md") = (b "/h/u.txt", b "/h/fd/.%a.md%") /\
+  cli_lint_reads (b "/h/u.txt") (b "/h/fd") (b "././b/./a.md") = (b "/h/u.txt", b "/h/fd/.%b%a.md%") /\
+  cli_lint_reads (b "/h/u.txt") (b "/h/fd") (b "/") = (b "/h/u.txt", b "/h/fd") /\
+  cli_lint_reads (b "/h/u.txt") (b "/") (b "a.md") = (b "/h/u.txt", b "/a.md%") /\
+  cli_file_dict_name (b ".") = b ".%" /\ cli_file_dict_name [] = [] /\ cli_file_dict_name (b "..") = b "..%".
+Proof. exact cli_examples. Qed.
+
+(* (c) the source shapes behind the hand-written path models, re-read from /repo on every run (tools/tables/c10paths.py) *)
+Theorem C10_path_code_shapes :
+  config_path_blocks = [("userDictPath", "user_dict_path", true, "try_resolve"); ("fileDictPath", "file_dict_path", true, "try_resolve");
+                        ("statsPath", "stats_path", false, "try_resolve")] /\
+  save_dict_refuses_no_file_name = false /\
+  ls_file_dict_name_shape = ("%", true, true) /\ cli_file_dict_name_shape = ("%", true, false) /\
+  cli_lint_loads = ["&user_dict_path"; "file_dict_path.join(file_dict_name(&file))"] /\
+  bytes_of_string "%" = [percent].
+Proof. exact path_code_shapes. Qed.
+Check C10_path_code_shapes :
+  config_path_blocks = [("userDictPath", "user_dict_path", true, "try_resolve"); ("fileDictPath", "file_dict_path", true, "try_resolve");
+                        ("statsPath", "stats_path", false, "try_resolve")] /\
+  save_dict_refuses_no_file_name = false /\
+  ls_file_dict_name_shape = ("%", true, true) /\ cli_file_dict_name_shape = ("%", true, false) /\
+  cli_lint_loads = ["&user_dict_path"; "file_dict_path.join(file_dict_name(&file))"] /\
+  bytes_of_string "%" = [percent].
+Print Assumptions C10_path_code_shapes.
